@@ -1,10 +1,20 @@
 #!/usr/bin/env python3
-"""Generates dispatch_gen.go: one closure per BLAS routine and precision that passes the
-fields of a call record to gonum, in the argument order of the gonum API.  The table below is
-the only input; the Go compiler checks it against the real signatures.  No arithmetic here."""
+"""Generates dispatch_gen.go from the tables below (the only input; the Go compiler checks them
+against the real signatures of gonum).  No arithmetic here.
+
+  tabS/D/C/Z    one closure per BLAS routine and precision that passes the fields of a call record
+                to blas/gonum.Implementation, in the argument order of the gonum API
+  wtabS/D/C/Z   one closure per routine family and wrapper package (blas32, blas64, cblas64,
+                cblas128): builds the wrapper's structs from the struct records the specification
+                printed (BlasWrap.tla) and calls the wrapper function
+  probe         an implementation of blas.Float32/Float64/Complex64/Complex128 that records the
+                method and every argument it is called with and then forwards to
+                gonum.Implementation (installed with Use: what did the wrapper forward?)
+  convS/D/C/Z   the From conversions between the row-major struct types and their column-major twins
+"""
 import os
 
-# family -> (domains, argument tokens, kind of returned value)
+# family -> (domains, argument tokens of the gonum method, kind of returned value)
 T = {
  "swap":  ("RC", "n x incx y incy", ""),
  "copy":  ("RC", "n x incx y incy", ""),
@@ -59,15 +69,90 @@ SPECIAL = {  # (family, precision) -> gonum method name
 }
 TYPES = {"S": ("float32", "float32"), "D": ("float64", "float64"),
          "C": ("complex64", "float32"), "Z": ("complex128", "float64")}
+PKG = {"S": "blas32", "D": "blas64", "C": "cblas64", "Z": "cblas128"}
+
+# family -> (wrapper function, argument tokens of the wrapper; a matrix/vector token is operand:StructType)
+W = {
+ "swap":  ("Swap", "x:Vector y:Vector"),
+ "copy":  ("Copy", "x:Vector y:Vector"),
+ "axpy":  ("Axpy", "alpha x:Vector y:Vector"),
+ "scal":  ("Scal", "alpha x:Vector"),
+ "rscal": ("Dscal", "ralpha x:Vector"),
+ "dot":   ("Dot", "x:Vector y:Vector"),
+ "dotu":  ("Dotu", "x:Vector y:Vector"),
+ "dotc":  ("Dotc", "x:Vector y:Vector"),
+ "asum":  ("Asum", "x:Vector"),
+ "iamax": ("Iamax", "x:Vector"),
+ "rot":   ("Rot", "x:Vector y:Vector alpha beta"),
+ "gemv":  ("Gemv", "tA alpha a:General x:Vector beta y:Vector"),
+ "gbmv":  ("Gbmv", "tA alpha a:Band x:Vector beta y:Vector"),
+ "symv":  ("Symv", "alpha a:Symmetric x:Vector beta y:Vector"),
+ "hemv":  ("Hemv", "alpha a:Hermitian x:Vector beta y:Vector"),
+ "sbmv":  ("Sbmv", "alpha a:SymmetricBand x:Vector beta y:Vector"),
+ "hbmv":  ("Hbmv", "alpha a:HermitianBand x:Vector beta y:Vector"),
+ "spmv":  ("Spmv", "alpha a:SymmetricPacked x:Vector beta y:Vector"),
+ "hpmv":  ("Hpmv", "alpha a:HermitianPacked x:Vector beta y:Vector"),
+ "trmv":  ("Trmv", "tA a:Triangular x:Vector"),
+ "trsv":  ("Trsv", "tA a:Triangular x:Vector"),
+ "tbmv":  ("Tbmv", "tA a:TriangularBand x:Vector"),
+ "tbsv":  ("Tbsv", "tA a:TriangularBand x:Vector"),
+ "tpmv":  ("Tpmv", "tA a:TriangularPacked x:Vector"),
+ "tpsv":  ("Tpsv", "tA a:TriangularPacked x:Vector"),
+ "ger":   ("Ger", "alpha x:Vector y:Vector a:General"),
+ "geru":  ("Geru", "alpha x:Vector y:Vector a:General"),
+ "gerc":  ("Gerc", "alpha x:Vector y:Vector a:General"),
+ "syr":   ("Syr", "alpha x:Vector a:Symmetric"),
+ "her":   ("Her", "ralpha x:Vector a:Hermitian"),
+ "spr":   ("Spr", "alpha x:Vector a:SymmetricPacked"),
+ "hpr":   ("Hpr", "ralpha x:Vector a:HermitianPacked"),
+ "syr2":  ("Syr2", "alpha x:Vector y:Vector a:Symmetric"),
+ "her2":  ("Her2", "alpha x:Vector y:Vector a:Hermitian"),
+ "spr2":  ("Spr2", "alpha x:Vector y:Vector a:SymmetricPacked"),
+ "hpr2":  ("Hpr2", "alpha x:Vector y:Vector a:HermitianPacked"),
+ "gemm":  ("Gemm", "tA tB alpha a:General b:General beta c:General"),
+ "symm":  ("Symm", "sd alpha a:Symmetric b:General beta c:General"),
+ "hemm":  ("Hemm", "sd alpha a:Hermitian b:General beta c:General"),
+ "syrk":  ("Syrk", "tA alpha a:General beta c:Symmetric"),
+ "herk":  ("Herk", "tA ralpha a:General rbeta c:Hermitian"),
+ "syr2k": ("Syr2k", "tA alpha a:General b:General beta c:Symmetric"),
+ "her2k": ("Her2k", "tA alpha a:General b:General rbeta c:Hermitian"),
+ "trmm":  ("Trmm", "sd tA alpha a:Triangular b:General"),
+ "trsm":  ("Trsm", "sd tA alpha a:Triangular b:General"),
+}
+WOVERRIDE = {("rot", "S"): "n x:Vector y:Vector alpha beta"}   # blas32.Rot takes n explicitly
+
+# struct type -> fields set from the struct record (Data is always the backing slice)
+STRUCTS = {
+ "Vector": "N Inc", "General": "Rows Cols Stride", "Band": "Rows Cols KL KU Stride",
+ "Triangular": "N Stride Uplo Diag", "TriangularBand": "N K Stride Uplo Diag", "TriangularPacked": "N Uplo Diag",
+ "Symmetric": "N Stride Uplo", "SymmetricBand": "N K Stride Uplo", "SymmetricPacked": "N Uplo",
+ "Hermitian": "N Stride Uplo", "HermitianBand": "N K Stride Uplo", "HermitianPacked": "N Uplo",
+}
+COMPLEX_ONLY = {"Hermitian", "HermitianBand", "HermitianPacked"}
+CONV = ["General", "Triangular", "Band", "TriangularBand", "Symmetric", "SymmetricBand", "Hermitian", "HermitianBand"]
+
+GOTYPE = {"n": "int", "m": "int", "k": "int", "kl": "int", "ku": "int", "lda": "int", "ldb": "int", "ldc": "int",
+          "incx": "int", "incy": "int", "tA": "gblas.Transpose", "tB": "gblas.Transpose", "ul": "gblas.Uplo",
+          "dg": "gblas.Diag", "sd": "gblas.Side"}
 
 out = ["// Code generated by gen_dispatch.py; DO NOT EDIT.", "", "package blas", "",
-       'import "gonum.org/v1/gonum/blas/gonum"', "", "var impl gonum.Implementation", ""]
+       "import (", '\tgblas "gonum.org/v1/gonum/blas"', '\t"gonum.org/v1/gonum/blas/blas32"',
+       '\t"gonum.org/v1/gonum/blas/blas64"', '\t"gonum.org/v1/gonum/blas/cblas128"',
+       '\t"gonum.org/v1/gonum/blas/cblas64"', '\t"gonum.org/v1/gonum/blas/gonum"', ")", "",
+       "var impl gonum.Implementation", ""]
+
+
+def in_dom(fam, prec):
+    return ("R" if prec in "SD" else "C") in T[fam][0]
+
+
+# ---- direct calls -----------------------------------------------------------------------------
 for prec in "SDCZ":
     t, r = TYPES[prec]
     out.append("var tab%s = map[string]entry[%s, %s]{" % (prec, t, r))
     for fam in T:
         dom, args, ret = T[fam]
-        if ("R" if prec in "SD" else "C") not in dom:
+        if not in_dom(fam, prec):
             continue
         name = SPECIAL.get((fam, prec), prec + fam)
         call = "impl.%s(%s)" % (name, ", ".join("c." + a for a in args.split()))
@@ -80,4 +165,106 @@ for prec in "SDCZ":
         out.append('\t"%s": {"%s", func(c *call[%s, %s]) { %s }},' % (fam, name, t, r, call))
     out.append("}")
     out.append("")
+
+# ---- struct constructors ------------------------------------------------------------------------
+for prec in "SDCZ":
+    t, r = TYPES[prec]
+    for st, fields in STRUCTS.items():
+        if st in COMPLEX_ONLY and prec in "SD":
+            continue
+        fl = []
+        for f in fields.split():
+            if f == "Uplo":
+                fl.append("Uplo: uploOf(w.Uplo)")
+            elif f == "Diag":
+                fl.append("Diag: diagOf(w.Diag)")
+            else:
+                fl.append("%s: w.%s" % (f, f))
+        out.append("func mk%s%s(w *wstruct, d []%s) %s.%s {\n\treturn %s.%s{%s, Data: d}\n}" % (
+            prec, st, t, PKG[prec], st, PKG[prec], st, ", ".join(fl)))
+    out.append("")
+
+# ---- wrapper calls ------------------------------------------------------------------------------
+for prec in "SDCZ":
+    t, r = TYPES[prec]
+    out.append("var wtab%s = map[string]wentry[%s, %s]{" % (prec, t, r))
+    for fam in W:
+        if not in_dom(fam, prec):
+            continue
+        fn, toks = W[fam]
+        toks = WOVERRIDE.get((fam, prec), toks)
+        args, types = [], []
+        for tk in toks.split():
+            if ":" in tk:
+                o, st = tk.split(":")
+                args.append('mk%s%s(c.w["%s"], c.%s)' % (prec, st, o, o))
+                types.append('"%s": "%s"' % (o, st))
+            else:
+                args.append("c." + tk)
+        call = "%s.%s(%s)" % (PKG[prec], fn, ", ".join(args))
+        ret = T[fam][2]
+        if ret == "T":
+            call = "c.setT(%s)" % call
+        elif ret == "R":
+            call = "c.setR(%s)" % call
+        elif ret == "I":
+            call = "c.setI(%s)" % call
+        out.append('\t"%s": {"%s", map[string]string{%s}, func(c *call[%s, %s]) { %s }},' % (
+            fam, fn, ", ".join(types), t, r, call))
+    out.append("}")
+    out.append("")
+
+# ---- the recording implementation ---------------------------------------------------------------
+out.append("// probe records the method and the arguments of the last BLAS call it receives and forwards the call to")
+out.append("// gonum.Implementation. Methods that are not listed here are inherited unrecorded.")
+for prec in "SDCZ":
+    t, r = TYPES[prec]
+    for fam in T:
+        dom, args, ret = T[fam]
+        if not in_dom(fam, prec):
+            continue
+        name = SPECIAL.get((fam, prec), prec + fam)
+        params, ints, scal, sl = [], [], [], []
+        for a in args.split():
+            if a in GOTYPE:
+                params.append("%s %s" % (a, GOTYPE[a]))
+                ints.append('"%s": int(%s)' % (a, a))
+            elif a in ("alpha", "beta"):
+                params.append("%s %s" % (a, t))
+                scal.append('"%s": sc(%s)' % (a, a))
+            elif a in ("ralpha", "rbeta"):
+                params.append("%s %s" % (a, r))
+                scal.append('"%s": sc(%s)' % (a[1:], a))
+            else:
+                params.append("%s []%s" % (a, t))
+                sl.append('"%s": sid(%s)' % (a, a))
+        rett = {"": "", "T": " " + t, "R": " " + r, "I": " int"}[ret]
+        fwd = "p.Implementation.%s(%s)" % (name, ", ".join(a for a in args.split()))
+        out.append("func (p *probe) %s(%s)%s {" % (name, ", ".join(params), rett))
+        out.append('\tp.note("%s", map[string]int{%s}, map[string]complex128{%s}, map[string]sliceID{%s})' % (
+            name, ", ".join(ints), ", ".join(scal), ", ".join(sl)))
+        out.append("\t%s%s" % ("return " if ret else "", fwd))
+        out.append("}")
+        out.append("")
+
+# ---- conversions between row-major and column-major structs --------------------------------------
+for prec in "SDCZ":
+    t, r = TYPES[prec]
+    pk = PKG[prec]
+    out.append("var conv%s = map[string]func(toCols bool, sw, dw *wstruct, s, d []%s){" % (prec, t))
+    for st in CONV:
+        if st in COMPLEX_ONLY and prec in "SD":
+            continue
+        if prec == "C" and st in ("Symmetric", "SymmetricBand"):   # cblas64 has no SymmetricCols / SymmetricBandCols
+            continue
+        out.append('\t"%s": func(toCols bool, sw, dw *wstruct, s, d []%s) {' % (st, t))
+        out.append("\t\tif toCols {")
+        out.append("\t\t\t%s.%sCols(mk%s%s(dw, d)).From(mk%s%s(sw, s))" % (pk, st, prec, st, prec, st))
+        out.append("\t\t} else {")
+        out.append("\t\t\tmk%s%s(dw, d).From(%s.%sCols(mk%s%s(sw, s)))" % (prec, st, pk, st, prec, st))
+        out.append("\t\t}")
+        out.append("\t},")
+    out.append("}")
+    out.append("")
+
 open(os.path.join(os.path.dirname(os.path.abspath(__file__)), "dispatch_gen.go"), "w").write("\n".join(out))
